@@ -347,6 +347,208 @@ def predicate(c, o):
 
 # ---------------------------------------------------------------------------
 
+# ---------------------------------------------------------------------------
+# run_block_fetcher (gossip/mod.rs): real loop (vh fetcher, needs the C19_fetcher hook) vs
+# Model.Fetcher.run_case, plus predicates on the implementation's output alone
+
+FBIN = "fetcher"
+HOOK_FILE = os.path.join(common.REPO, "node/components/network/src/gossip/verif.rs")
+
+
+def fetcher_hook_present():
+    try:
+        return "gossip_run_block_fetcher" in open(HOOK_FILE).read()
+    except OSError:
+        return False
+
+
+class FSim:
+    """python twin of Model.Fetcher.sim, used only to steer the generator towards meaningful scripts"""
+
+    def __init__(self, start, limit):
+        self.limit, self.next, self.q, self.p = limit, start, start, start
+        self.tasks = {}          # n -> 'R' | 'P'
+        self.arrived, self.permits, self.inq, self.held, self.storing = set(), 0, [], [], []
+        self.settle()
+
+    def settle(self):
+        while True:
+            if self.q in self.arrived:
+                self.arrived.discard(self.q); self.q += 1; continue
+            if self.permits > 0 and self.p < self.q:
+                self.p += 1; self.permits -= 1; continue
+            r = [n for n, ph in self.tasks.items() if ph == 'R' and n < self.q]
+            if r:
+                self.tasks[r[0]] = 'P'
+                if r[0] in self.inq:
+                    self.inq.remove(r[0])
+                continue
+            d = [n for n, ph in self.tasks.items() if ph == 'P' and n < self.p]
+            if d:
+                del self.tasks[d[0]]; continue
+            if len(self.tasks) < self.limit:
+                self.tasks[self.next] = 'R'; self.inq.append(self.next); self.next += 1; continue
+            break
+        self.storing = [n for n in self.storing if n >= self.q]
+
+    def apply(self, ops):
+        takes = 0
+        for op in ops:
+            k = op[0]
+            if k == "arrive":
+                if op[1] >= self.q:
+                    self.arrived.add(op[1])
+            elif k == "persist":
+                self.permits += op[1]
+            elif k == "take":
+                takes += 1
+            elif k in ("store", "drop") and op[1] < len(self.held):
+                n = self.held.pop(op[1])
+                if k == "store":
+                    self.storing.append(n)
+                    if n >= self.q:
+                        self.arrived.add(n)
+                elif self.tasks.get(n) == 'R':
+                    self.inq.append(n)
+        self.settle()
+        for _ in range(takes):
+            if self.inq:
+                m = min(self.inq); self.inq.remove(m); self.held.append(m)
+
+
+def gen_fetcher_case(rng):
+    start = rng.choice([0, 0, 1, 2, 5, 17, 1000, rng.range(0, 60)])
+    limit = rng.choice([1, 1, 2, 3, 3, 4, 6, 10, 0]) if rng.chance(9, 10) else rng.range(0, 12)
+    sim = FSim(start, limit)
+    steps = []
+    for _ in range(rng.range(3, 28)):
+        if rng.chance(1, 4):
+            ops = [["take"]] * rng.range(1, 4)
+        else:
+            ops = []
+            for _ in range(rng.choice([1, 1, 1, 2, 2, 3])):
+                k = rng.below(100)
+                if k < 30:
+                    # a block arrives by another route: inside, just above, or below the window
+                    n = rng.choice([sim.q, sim.q, sim.q + 1, sim.q + rng.below(limit + 3), max(0, sim.q - 1 - rng.below(3)),
+                                    sim.p + limit + rng.below(3)])
+                    ops.append(["arrive", n])
+                elif k < 50:
+                    ops.append(["persist", rng.choice([1, 1, 2, 3, limit + 1])])
+                elif k < 75:
+                    ops.append(["store", 0 if rng.chance(3, 4) else rng.below(4)])
+                elif k < 92:
+                    ops.append(["drop", 0 if rng.chance(3, 4) else rng.below(4)])
+                else:
+                    ops.append(["store", 9])       # out of range: no-op on both sides
+        sim.apply(ops)
+        steps.append(ops)
+    return {"start": start, "limit": limit, "steps": steps}
+
+
+def fetcher_corpus():
+    return [
+        {"start": 3, "limit": 3, "steps": [[["take"], ["take"]], [["store", 1]], [["store", 0]], [["persist", 1]],
+                                           [["arrive", 6], ["arrive", 5]], [["persist", 5]], [["take"]] * 4, [["drop", 1], ["store", 0]], [["persist", 9]]]},
+        # blocks arrive from consensus faster than they are persisted: nothing left to request
+        {"start": 0, "limit": 2, "steps": [[["arrive", 0], ["arrive", 1], ["arrive", 2], ["arrive", 3]], [["take"]], [["persist", 1]], [["persist", 3]], [["take"], ["take"]]]},
+        {"start": 10, "limit": 0, "steps": [[["take"]], [["arrive", 10]], [["persist", 2]]]},
+    ]
+
+
+def fetcher_obs(o):
+    return [[1, s["blocks"], s["held"], s["storing"], s["qnext"], s["pnext"]] for s in o["steps"]]
+
+
+def coq_fop(op):
+    k = op[0]
+    if k == "arrive":
+        return f"OArrive {op[1]}"
+    if k == "persist":
+        return f"OPersist {op[1]}"
+    if k == "take":
+        return "OTake"
+    if k == "store":
+        return f"OStore {op[1]}"
+    if k == "drop":
+        return f"ODrop {op[1]}"
+    raise ValueError(op)
+
+
+def coq_fcase(c):
+    return "(%d, %d%%nat, %s)" % (c["start"], c["limit"], coq_list([coq_list([coq_fop(x) for x in ops]) for ops in c["steps"]]))
+
+
+def fetcher_predicate(c, o):
+    """C19 for the fetcher, on the implementation's quiescent states alone: one live request per number,
+    exactly the not yet queued numbers of [persisted.next, persisted.next + limit), none for a queued number."""
+    bad = []
+    L = c["limit"]
+    for si, s in enumerate(o["steps"]):
+        q, p = s["qnext"], s["pnext"]
+        live = list(s["blocks"]) + [n for n in s["held"] if n >= q] + [n for n in s["storing"] if n >= q]
+        where = {"step": si - 1, "state": s}
+        if len(set(live)) != len(live):
+            bad.append({**where, "failed": f"two live requests for one block number: {sorted(live)}"})
+        low = [n for n in s["blocks"] if n < q]
+        if low:
+            bad.append({**where, "failed": f"block {low[0]} is requested although it is already queued (queued.next = {q})"})
+        high = [n for n in live if n >= p + L]
+        if high:
+            bad.append({**where, "failed": f"block {high[0]} requested outside the window [{p}, {p + L}) of max_block_queue_size = {L}"})
+        want = list(range(q, p + L))
+        if sorted(set(live)) != want and not bad:
+            missing = [n for n in want if n not in live]
+            bad.append({**where, "failed": f"live requests {sorted(live)} differ from the missing blocks of the window {want}" + (f": block {missing[0]} is not requested (request lost)" if missing else "")})
+        if bad:
+            break
+    return bad
+
+
+def run_fetcher(rep, rng):
+    """Returns dict(present, cases, mismatches, pred_fail, evals, distinct, samples)."""
+    res = {"present": fetcher_hook_present(), "cases": 0, "mismatches": 0, "pred_fail": [], "evals": 0, "distinct": 0,
+           "samples": [], "first": None}
+    override = os.environ.get("C19_FETCHER_BIN")
+    if not res["present"] and not override:
+        return res
+    if override:
+        res["present"] = True
+        orig = common.bin_path
+        common.bin_path = lambda n, profile="dev": override if n == FBIN else orig(n, profile)
+    else:
+        ok, out = common.cargo_build([FBIN], "dev")
+        if not ok:
+            raise common.MachineryError("cargo build of fetcher failed: " + out[-2000:])
+    n = 250 if rep.tier == "quick" else 5000
+    cases = fetcher_corpus() + [gen_fetcher_case(rng) for _ in range(n)]
+    outs = common.run_impl(FBIN, cases, "dev")
+    if override:
+        common.bin_path = orig
+    coq_cases, dist = [], set()
+    for i, (c, o) in enumerate(zip(cases, outs)):
+        if "crash" in o or "skipped" in o:
+            raise common.MachineryError(f"fetcher harness crashed on case {i}: {o}")
+        if "panic" in o:
+            res["pred_fail"].append({"fetcher_case": c, "failed": "run_block_fetcher harness panicked: " + o["panic"]})
+            continue
+        coq_cases.append((i, coq_fcase(c), common.to_obsv(fetcher_obs(o))))
+        res["evals"] += len(o["steps"])
+        for b in fetcher_predicate(c, o):
+            res["pred_fail"].append({"fetcher_case": c, **b})
+        if any(s["held"] or s["storing"] for s in o["steps"]) and o["steps"][-1]["pnext"] > c["start"]:
+            dist.add(json.dumps(c))
+    mm, samp = common.run_model_cases("C19f", "From EC Require Import Model.Fetcher.", "Model.Fetcher.run_case",
+                                      coq_cases, shard_size=20 if rep.tier == "quick" else 320, sample_ids=[0, 1, 4])
+    res["cases"], res["mismatches"], res["distinct"] = len(cases), len(mm), len(dist)
+    res["samples"] = [{"fetcher_case": cases[i], "impl": outs[i], "model_obs": samp.get(i)} for i in (0, 1, 4)]
+    if mm:
+        i = sorted(mm)[0]
+        res["first"] = {"fetcher_case": cases[i], "impl": outs[i], "model_obs": mm[i]}
+    return res
+
+
+
 def gen_cases(rng, n):
     cases = []
     for i in range(n):
@@ -405,6 +607,10 @@ def run(rep):
                                       coq_cases, shard_size=40 if tier == "quick" else 200, sample_ids=sample_ids)
     if mm:
         broken.append(f"correspondence vh fetch vs Model.Fetch.run_case (trace acceptance + quiescent state): {len(mm)} disagreeing cases")
+    ft = run_fetcher(rep, Rng(rep.seed ^ 0xFE7C4E2))
+    if ft["mismatches"]:
+        broken.append(f"correspondence vh fetcher (real run_block_fetcher) vs Model.Fetcher.run_case: {ft['mismatches']} disagreeing cases")
+    pred_fail += ft["pred_fail"]
     searched = 0
     if broken and not pred_fail:
         # bigger predicate-only search on the implementation
@@ -427,32 +633,46 @@ def run(rep):
         if mm:
             i = sorted(mm)[0]
             first = {"case": slim(cases[i]), "impl": outs[i], "model_obs": mm[i]}
+        elif ft["first"]:
+            first = ft["first"]
         rep.violation("C19 no longer shown to hold: " + "; ".join(broken)[:600],
                       {"broken": broken, "first_disagreement": first, "extra_cases_searched": searched}, found_input=False)
     cov.update({
-        "obligations": po["obligations"] + 1,
-        "discharged": po["discharged"] + (0 if mm else 1),
-        "checker_cmd": "./coqmake theories/Properties/C19.vo (make -C coq) + coqc on generated build/cases/C19/cases_*.v (vm_compute of Model.Fetch.run_case)",
+        "obligations": po["obligations"] + 1 + (1 if ft["present"] else 0),
+        "discharged": po["discharged"] + (0 if mm else 1) + (1 if ft["present"] and not ft["mismatches"] else 0),
+        "fetcher_tie": ({"hook": "present", "scripts": ft["cases"], "evaluations": ft["evals"], "distinct_nontrivial": ft["distinct"],
+                         "mismatches": ft["mismatches"], "predicate_failures": len(ft["pred_fail"]), "samples": ft["samples"][:2],
+                         "rule": "the real Network::run_block_fetcher over the real EngineManager + runner and a scripted persistence layer (start 0..1000, max_block_queue_size 0..12), scripts of 3-28 steps: blocks arriving by another route inside/above/below the window, persist completions, a connection taking the lowest request, stored and failed calls; after every step the fetch queue, held/being-stored calls, queued.next and persisted.next must equal Model.Fetcher.run_case; non-trivial = a call was held or stored and the persisted head moved"}
+                        if ft["present"] else
+                        {"hook": "absent: /verif/proposed_hooks/C19_fetcher.diff not applied to /repo, the real run_block_fetcher is not executed on this run (theorems about Model.Fetcher still checked)"}),
+        "checker_cmd": "./coqmake theories/Properties/C19.vo (make -C coq) + coqc on generated build/cases/C19/cases_*.v and build/cases/C19f/cases_*.v (vm_compute of Model.Fetch.run_case / Model.Fetcher.run_case)",
         "trusted_base": common.standard_trusted_base([
             "H-ATOM: tokio watch send_if_modified / borrow_and_update / changed, oneshot and BTreeMap behave as documented; the closure of send_if_modified is atomic; a task is not interrupted between awaits (this fixes the grain of the actions of Model.Fetch.step)",
-            "the harness reproduces the glue of gossip/mod.rs (request inside a scope ended by a signal) and gossip/runner.rs (reserve, accept_block, keep handle) rather than running run_block_fetcher/run_stream themselves",
+            "vh fetch reproduces the glue of gossip/mod.rs (request inside a scope ended by a signal) and gossip/runner.rs (reserve, accept_block, keep handle) around the real Queue; vh fetcher runs the real Network::run_block_fetcher (hook Glue::gossip_run_block_fetcher) over the real EngineManager with a scripted persistence layer and pre-genesis blocks; run_stream itself is not executed",
         ]),
         "theorems": po["theorems"], "axioms": po["axioms"],
-        "evaluations": evals,
-        "distinct_nontrivial": len(dist),
+        "evaluations": evals + ft["evals"],
+        "distinct_nontrivial": len(dist) + ft["distinct"],
         "rule": "one evaluation = one script step (batch of environment actions applied back to back, runtime drained to quiescence, state observed) on the real Queue with 1-5 peers and up to 10 requesters; scripts of 2-36 steps in four styles (mixed, race = many peers announcing the same low numbers, churn = failure/disconnect heavy, tiny) + 5 corpus scenarios; the model must reproduce the observed event order by an execution of Model.Fetch.step and reach the same quiescent state (queued numbers, per-connection accept status/permits/held calls, per-request status) with no visible action left enabled; non-trivial = distinct (script, event log) with at least one hand-over and at least one re-queue, completion or cancellation",
         "input_distribution": {"styles": kinds, "events": totals, "scripts": len(cases)},
         "samples": [{"case": slim(cases[i]), "impl": outs[i], "model_obs": samp.get(i)} for i in sample_ids if i < len(cases)],
         "correspondence_mismatches": len(mm), "predicate_failures": len(pred_fail),
         "partial": ("Theorems quantify over every interleaving of the atomic actions of Model.Fetch (any number of peers and "
-                    "requesters, including two requesters for one number). Proved: request_conserved (exactly one place), "
-                    "no_double_accept, failure/disconnect drop + re-queue, only_announced and lowest_first (history form and step/state "
-                    "forms), no_lost_wakeup as invariant + progress_step, replayer soundness. Not proved: liveness under fairness (only "
-                    "enabledness), anything about tokio internals (H-ATOM fixes the grain), and that run_block_fetcher issues one request per "
-                    "number (read off mod.rs: `next = next + 1`; what happens otherwise is exhibited by C19_override_livelock). "
-                    "The Rust side re-creates the glue of mod.rs/runner.rs around the real Queue (no hook exists for Network::run_block_fetcher / "
-                    "run_stream), so a change confined to those two files is not seen by the correspondence. Correspondence is single-threaded "
-                    "trace acceptance: the event order reported by the implementation resolves scheduler and select! nondeterminism; "
+                    "requesters) and of Model.Fetcher (fetcher moves, blocks queued by any route, blocks persisted). Proved: request_conserved, "
+                    "no_double_accept, failure/disconnect drop + re-queue, only_announced and lowest_first (history, step and state forms), "
+                    "no_lost_wakeup invariant + progress_step, replayer soundness; progress in bounded form: while n is the lowest queued number and "
+                    "connection p announces it, stays connected and has a reserved call, p's acceptor always has an enabled move and makes at most 5 moves "
+                    "plus one per version bump by others in ANY execution, hence under k-bounded fairness the situation lasts fewer than k*(6+B) steps "
+                    "(n handed over / cancelled, or a lower request arrived); higher inserts neither bump nor change the minimum (no starvation by higher "
+                    "requests); success completes, failure re-queues. Fetcher: one live request per number, numbers requested once and consecutively, "
+                    "window [persisted.next, persisted.next+limit), a request for a queued number is being cancelled, exact characterisation at rest; "
+                    "under that contract request() never overrides and cancellation removes only its own entry. "
+                    "Not proved: unbounded (infinite-schedule) fairness statements - the bounded form needs a bound B on interfering version bumps, "
+                    "which the environment (new lower requests, other peers' stale takes) controls; a request that is not the lowest waits for the lower "
+                    "ones (head-of-line, by design) so its hand-over needs a peer for each lower number; tokio internals (H-ATOM). "
+                    "The two models are linked by the contract `env_ok` (a request for n starts only while nobody requests n), not composed into one system. "
+                    "The queue correspondence re-creates the runner.rs connection glue (reserve, accept_block, keep handle) around the real Queue; run_stream itself "
+                    "(rpc, timeouts) is not executed. Correspondence is single-threaded (event order resolves scheduler and select! nondeterminism); "
                     "multi-thread perturbed runs are not included."),
         "model_corrections": ("DESIGN §5 C19 states the wake-up invariant as `seen = ver -> m = current minimum`; the code does not signal when a take "
                               "empties the queue, so the invariant that holds (and is proved) is `seen = ver /\\ queue non-empty -> m = minimum`. "
@@ -469,6 +689,21 @@ def replay(path):
     if not fi:
         print("no concrete input in replay file:", d.get("broken"))
         return 1
+    if "fetcher_case" in fi:
+        c = fi["fetcher_case"]
+        if not fetcher_hook_present():
+            print("the C19_fetcher hook is not applied to /repo: cannot run the real run_block_fetcher")
+            return 1
+        common.cargo_build([FBIN], "dev")
+        o = common.run_impl(FBIN, [c], "dev")[0]
+        print(json.dumps(o, indent=1))
+        if "steps" in o:
+            print("predicate failures:", json.dumps(fetcher_predicate(c, o), indent=1))
+            mm, samp = common.run_model_cases("C19freplay", "From EC Require Import Model.Fetcher.", "Model.Fetcher.run_case",
+                                              [(0, coq_fcase(c), common.to_obsv(fetcher_obs(o)))], sample_ids=[0])
+            print("model:", json.dumps(samp.get(0)))
+            print("model agrees" if not mm else "model DISAGREES")
+        return 0
     c = dict(fi["case"])
     c.setdefault("kind", "replay")
     common.cargo_build([BIN], "dev")
